@@ -108,6 +108,11 @@ func perCycle(scns []Scn) []int {
 	return ws
 }
 
+// smallDelimiter: the second data source is separated by a tab, a blank, a semicolon or a comma
+func (c Case) smallDelimiter() string {
+	return []string{"\t", " ", ";", ","}[int(uint64(c.Seed)%4)]
+}
+
 func (c Case) YAML(csvPath, smallPath string) string {
 	var b strings.Builder
 	fmt.Fprintf(&b, `variable_sources:
@@ -118,12 +123,13 @@ func (c Case) YAML(csvPath, smallPath string) string {
   - type: "file/csv"
     name: "small"
     file: %q
-    fields: ["s"]
+    fields: ["s", "t"]
+    delimiter: %q
   - type: "variables"
     name: "vars"
     variables: {"a": "static-a"}
 requests:
-`, csvPath, smallPath)
+`, csvPath, smallPath, c.smallDelimiter())
 	postHead := `    postprocessors:
       - type: "var/jsonpath"
         mapping: {"tok": "$.tok", "n": "$.n", "deep": "$.d.e", "flag": "$.ok"}
@@ -395,7 +401,8 @@ func runCase(res *vkit.Result, c Case, idx int) {
 		fmt.Fprintf(&rows, "%d,val-%d\n", r, r*7)
 	}
 	_ = vkit.WriteMemAt(base+".csv", []byte(rows.String()))
-	_ = vkit.WriteMemAt(base+".small.csv", []byte("alpha\nbeta\ngamma\n"))
+	sd := c.smallDelimiter()
+	_ = vkit.WriteMemAt(base+".small.csv", []byte("alpha"+sd+"x1\nbeta"+sd+"x2\ngamma"+sd+"x3\n"))
 	yaml := c.YAML(base+".csv", base+".small.csv")
 	_ = vkit.WriteMemAt(base+".yaml", []byte(yaml))
 	defer func() {
